@@ -20,6 +20,9 @@ Snap == [be |-> Ents(be), errs |-> Ents(errs),
 NoRes == [done |-> FALSE, v |-> "", err |-> ""]
 
 (* The first entry carries the prepared contents the harness has to set up. *)
+NoSnap == [be |-> {}, errs |-> {}, locks |-> 0, nb |-> [k \in Keys |-> 0],
+           met |-> [build |-> 0, failed |-> 0, refreshed |-> 0, changed |-> 0], now |-> 0]
+
 GenInit ==
   /\ Init /\ done = FALSE
   /\ hist = <<[p |-> "", name |-> "Init", out |-> "", arg |-> 0, pcb |-> "", pca |-> "", end |-> TRUE,
@@ -34,7 +37,8 @@ GenStep ==
                            end |-> (running' = "none"),
                            res |-> IF act'.p = "" THEN NoRes ELSE res'[act'.p],
                            cell |-> IF act'.p = "" THEN 0 ELSE loc'[act'.p].cell,
-                           st |-> Snap'])
+                           \* the snapshot is compared at macro-step ends only; elsewhere a constant keeps the line short
+                           st |-> IF running' = "none" THEN Snap' ELSE NoSnap])
   /\ UNCHANGED done
 
 Finish == AllDone /\ ~done /\ done' = TRUE /\ UNCHANGED <<vars, hist>>
